@@ -195,3 +195,327 @@ Proof.
   subst t. rewrite create_url_wire_path by assumption.
   destruct (r_setting r); try congruence; destruct (b_rw (r_backend r)); reflexivity.
 Qed.
+
+(** * headers: what the HTTP client is handed, name by name *)
+
+From HV Require Import C15.HeaderLemmas.
+
+Lemma pipeline_value_lines hs k :
+  pipeline_value hs k = match line_values k hs with v :: _ => Some v | [] => None end.
+Proof.
+  induction hs as [|[n v] r IH]; [reflexivity|]. simpl.
+  destruct (String.eqb (canon_key n) k); [reflexivity | exact IH].
+Qed.
+
+Lemma upstream_headers_values pl k : h_values k (upstream_headers pl) = line_values k (p_headers pl).
+Proof. unfold upstream_headers. rewrite h_values_fold_add. reflexivity. Qed.
+
+Lemma upstream_headers_has pl k : h_has k (upstream_headers pl) = negb (is_nil (line_values k (p_headers pl))).
+Proof. unfold upstream_headers. rewrite h_has_fold_add. reflexivity. Qed.
+
+Lemma nodup_upstream_headers pl : NoDup (keys (upstream_headers pl)).
+Proof. unfold upstream_headers. apply nodup_fold_add. constructor. Qed.
+
+(** the loop over the pipeline's headers: its first value for the name, else what was there *)
+Lemma pipeline_headers_set pl k h :
+  h_values k (set_pipeline_headers (upstream_headers pl) h) =
+  match pipeline_value (p_headers pl) k with Some v => [v] | None => h_values k h end.
+Proof.
+  rewrite h_values_set_pipeline by apply nodup_upstream_headers.
+  rewrite upstream_headers_has, upstream_headers_values, pipeline_value_lines.
+  destruct (line_values k (p_headers pl)); reflexivity.
+Qed.
+
+Lemma upstream_host pl : h_get "Host" (upstream_headers pl) =
+  match pipeline_value (p_headers pl) "Host" with Some v => v | None => "" end.
+Proof.
+  rewrite h_get_values, upstream_headers_values, pipeline_value_lines.
+  destruct (line_values "Host" (p_headers pl)); reflexivity.
+Qed.
+
+(** before the pipeline's headers are applied: the client's fields that are passed on *)
+Lemma passed_on_values q k :
+  h_values k (h_del_all ["X-Forwarded-Method"; "X-Forwarded-Uri"; "X-Forwarded-Path"]
+                (strip_forwarding (remove_hop_by_hop (in_headers q)))) = passed_on (in_headers q) k.
+Proof.
+  unfold strip_forwarding, passed_on, never_passed, is_forwarding_name, hop_by_hop.
+  rewrite !h_values_del_all, h_values_remove_hop.
+  destruct (mem_str k ["X-Forwarded-Method"; "X-Forwarded-Uri"; "X-Forwarded-Path"]); [reflexivity|].
+  destruct (mem_str k ["Forwarded"; "X-Forwarded-For"; "X-Forwarded-Host"; "X-Forwarded-Proto"]); reflexivity.
+Qed.
+
+Lemma join_cookies_fold cs : forall h, cs <> [] ->
+  h_values "Cookie" (fold_left add_cookie cs h) = [join_cookies (h_get "Cookie" h) cs].
+Proof.
+  induction cs as [|c r IH]; intros h Hne; [congruence|]. simpl fold_left.
+  assert (Hg : h_get "Cookie" (add_cookie h c) =
+               (if is_empty (h_get "Cookie" h) then cookie_text c else h_get "Cookie" h ++ "; " ++ cookie_text c)).
+  { unfold add_cookie, cookie_text. destruct (is_empty (h_get "Cookie" h)); rewrite h_get_values, h_values_set; reflexivity. }
+  destruct r as [|c2 r'].
+  - simpl. unfold add_cookie, cookie_text.
+    destruct (is_empty (h_get "Cookie" h)); rewrite h_values_set; reflexivity.
+  - rewrite IH by discriminate. rewrite Hg. reflexivity.
+Qed.
+
+Lemma sort_cookies_nil cs : sort_cookies cs = [] -> cs = [].
+Proof.
+  destruct cs as [|c r]; [reflexivity|]. simpl. intro H. exfalso.
+  destruct (sort_cookies r) as [|e l]; simpl in H; [discriminate|].
+  destruct (String.leb (fst c) (fst e)); discriminate.
+Qed.
+
+(** the block at the end of rewriteRequest *)
+Lemma forwarded_block_values q k h :
+  h_values k (forwarded_block (in_headers q) (q_host q) (q_peer q) h) =
+  match forwarding_value q k with Some v => [v] | None => h_values k h end.
+Proof.
+  unfold forwarded_block, forwarding_value, forwarding_active, append_peer, forwarded_element.
+  set (hin := in_headers q).
+  destruct (negb (is_empty (h_get "X-Forwarded-For" hin)) || negb (is_empty (h_get "X-Forwarded-Proto" hin)) ||
+            negb (is_empty (h_get "X-Forwarded-Host" hin))).
+  - rewrite !h_values_set.
+    destruct (String.eqb k "X-Forwarded-For") eqn:E1.
+    { apply String.eqb_eq in E1. subst k. reflexivity. }
+    destruct (String.eqb k "X-Forwarded-Proto") eqn:E2.
+    { apply String.eqb_eq in E2. subst k. reflexivity. }
+    destruct (String.eqb k "X-Forwarded-Host") eqn:E3.
+    { apply String.eqb_eq in E3. subst k. reflexivity. }
+    rewrite (str_eqb_sym "X-Forwarded-Host" k), E3, (str_eqb_sym "X-Forwarded-Proto" k), E2,
+            (str_eqb_sym "X-Forwarded-For" k), E1. reflexivity.
+  - rewrite h_values_set. rewrite (str_eqb_sym "Forwarded" k).
+    destruct (String.eqb k "Forwarded") eqn:E; [|reflexivity].
+    apply String.eqb_eq in E. subst k. reflexivity.
+Qed.
+
+Lemma forwarding_value_name q k v : forwarding_value q k = Some v -> is_forwarding_name k = true.
+Proof.
+  unfold forwarding_value, is_forwarding_name, mem_str. simpl.
+  destruct (forwarding_active (in_headers q)).
+  - destruct (String.eqb k "X-Forwarded-For"); [intros _; rewrite !orb_true_r; reflexivity|].
+    destruct (String.eqb k "X-Forwarded-Proto"); [intros _; rewrite !orb_true_r; reflexivity|].
+    destruct (String.eqb k "X-Forwarded-Host"); [intros _; rewrite !orb_true_r; reflexivity|]. discriminate.
+  - destruct (String.eqb k "Forwarded"); [reflexivity | discriminate].
+Qed.
+
+(** the header map handed to the HTTP client is, name by name, what the
+    specification says WITH the forwarded block having the last word *)
+Theorem rewrite_request_values q pl th k : k <> "Host" ->
+  h_values k (snd (rewrite_request q pl th)) = handed_over false q pl k.
+Proof.
+  intro Hk. unfold rewrite_request. cbv zeta. cbn [snd].
+  rewrite forwarded_block_values. unfold handed_over.
+  destruct (forwarding_value q k) as [fv|] eqn:Ef.
+  - (* a forwarding name: not Cookie *)
+    pose proof (forwarding_value_name _ _ _ Ef) as Hn.
+    assert (Hc : String.eqb k "Cookie" = false).
+    { destruct (String.eqb k "Cookie") eqn:E; [|reflexivity]. apply String.eqb_eq in E. subst k. discriminate. }
+    rewrite Hc. reflexivity.
+  - set (h2 := set_pipeline_headers (upstream_headers pl)
+                 (h_del_all ["X-Forwarded-Method"; "X-Forwarded-Uri"; "X-Forwarded-Path"]
+                    (strip_forwarding (remove_hop_by_hop (in_headers q))))).
+    set (h3 := if is_empty (h_get "Host" (upstream_headers pl)) then h2 else h_del "Host" h2).
+    assert (H3 : forall k', k' <> "Host" -> h_values k' h3 =
+                 match pipeline_value (p_headers pl) k' with Some v => [v] | None => passed_on (in_headers q) k' end).
+    { intros k' Hk'. unfold h3. destruct (is_empty (h_get "Host" (upstream_headers pl))).
+      - unfold h2. rewrite pipeline_headers_set, passed_on_values. reflexivity.
+      - rewrite h_values_del. rewrite str_eqb_neq by congruence.
+        unfold h2. rewrite pipeline_headers_set, passed_on_values. reflexivity. }
+    destruct (String.eqb k "Cookie") eqn:Ec.
+    + apply String.eqb_eq in Ec. subst k. simpl andb.
+      destruct (sort_cookies (p_cookies pl)) as [|c cs] eqn:Es.
+      * assert (Hnil : p_cookies pl = []) by (apply sort_cookies_nil; exact Es).
+        rewrite Hnil. simpl. rewrite H3 by discriminate. reflexivity.
+      * assert (Hnn : is_nil (p_cookies pl) = false).
+        { destruct (p_cookies pl); [discriminate | reflexivity]. }
+        rewrite Hnn. simpl negb. cbv iota.
+        rewrite join_cookies_fold by discriminate. rewrite h_get_values, H3 by discriminate. reflexivity.
+    + simpl andb. cbv iota. rewrite h_values_add_cookies_other by (rewrite str_eqb_sym; exact Ec).
+      apply H3. exact Hk.
+Qed.
+
+(** * http.Transport and the sorted report *)
+
+Lemma on_the_wire_values m h k : k <> "Host" ->
+  h_values k (on_the_wire m h) =
+  if String.eqb k "User-Agent" then
+    (if is_empty (first_or_empty (h_values k h)) then [] else [first_or_empty (h_values k h)])
+  else if String.eqb k "Accept-Encoding" then
+    (if is_empty (first_or_empty (h_values "Accept-Encoding" h)) && is_empty (first_or_empty (h_values "Range" h)) &&
+        negb (String.eqb m "HEAD")
+     then ["gzip"] else h_values k h)
+  else h_values k h.
+Proof.
+  intro Hk. unfold on_the_wire.
+  set (h1 := h_del "Host" h).
+  assert (H1 : forall k', k' <> "Host" -> h_values k' h1 = h_values k' h).
+  { intros k' Hk'. unfold h1. rewrite h_values_del. rewrite str_eqb_neq by congruence. reflexivity. }
+  set (ua := h_get "User-Agent" h1).
+  set (h2 := if is_empty ua then h_del "User-Agent" h1 else h_set "User-Agent" ua h1).
+  assert (Hua : ua = first_or_empty (h_values "User-Agent" h)).
+  { unfold ua. rewrite h_get_values, H1 by discriminate. reflexivity. }
+  assert (H2 : forall k', k' <> "Host" -> h_values k' h2 =
+               if String.eqb k' "User-Agent" then (if is_empty ua then [] else [ua]) else h_values k' h).
+  { intros k' Hk'. unfold h2. destruct (is_empty ua).
+    - rewrite h_values_del, (str_eqb_sym "User-Agent" k'). destruct (String.eqb k' "User-Agent"); [reflexivity|].
+      apply H1. exact Hk'.
+    - rewrite h_values_set, (str_eqb_sym "User-Agent" k'). destruct (String.eqb k' "User-Agent"); [reflexivity|].
+      apply H1. exact Hk'. }
+  assert (Hae : h_get "Accept-Encoding" h2 = first_or_empty (h_values "Accept-Encoding" h)).
+  { rewrite h_get_values, H2 by discriminate. reflexivity. }
+  assert (Hrg : h_get "Range" h2 = first_or_empty (h_values "Range" h)).
+  { rewrite h_get_values, H2 by discriminate. reflexivity. }
+  rewrite Hae, Hrg.
+  destruct (String.eqb k "User-Agent") eqn:Eu.
+  - apply String.eqb_eq in Eu. subst k.
+    destruct (is_empty (first_or_empty (h_values "Accept-Encoding" h)) &&
+              is_empty (first_or_empty (h_values "Range" h)) && negb (String.eqb m "HEAD")).
+    + rewrite h_values_set. simpl String.eqb. cbv iota. rewrite H2 by discriminate. simpl String.eqb. cbv iota.
+      rewrite Hua. reflexivity.
+    + rewrite H2 by discriminate. simpl String.eqb. cbv iota. rewrite Hua. reflexivity.
+  - destruct (is_empty (first_or_empty (h_values "Accept-Encoding" h)) &&
+              is_empty (first_or_empty (h_values "Range" h)) && negb (String.eqb m "HEAD")).
+    + rewrite h_values_set, (str_eqb_sym "Accept-Encoding" k).
+      destruct (String.eqb k "Accept-Encoding"); [reflexivity|]. rewrite H2 by exact Hk. rewrite Eu. reflexivity.
+    + rewrite H2 by exact Hk. rewrite Eu. destruct (String.eqb k "Accept-Encoding"); reflexivity.
+Qed.
+
+(** * taking [serve] apart *)
+
+Lemma serve_forwarded fx q pl r tls m uri host hs body :
+  serve fx q pl r = Forwarded tls m uri host hs body ->
+  exists u t,
+    view_url q = Some u /\ execute fx r u = Some t /\
+    (u_scheme t = "http" \/ u_scheme t = "https") /\
+    tls = String.eqb (u_scheme t) "https" /\ tls = r_up_tls r /\
+    m = view_method q /\ uri = wire_uri t /\
+    host = fst (rewrite_request q pl (u_host t)) /\
+    hs = h_sort (on_the_wire m (snd (rewrite_request q pl (u_host t)))) /\
+    body = q_body q.
+Proof.
+  unfold serve. destruct (view_url q) as [u|]; [|discriminate].
+  destruct (execute fx r u) as [t|]; [|discriminate].
+  destruct (String.eqb (u_scheme t) "http") eqn:E1; destruct (String.eqb (u_scheme t) "https") eqn:E2; simpl;
+    try discriminate.
+  - apply String.eqb_eq in E1. apply String.eqb_eq in E2. congruence.
+  - destruct (r_up_tls r) eqn:Et; simpl; [discriminate|].
+    destruct (rewrite_request q pl (u_host t)) as [hh h] eqn:Er. intro H. inversion H; subst.
+    exists u, t. apply String.eqb_eq in E1. splits; auto.
+  - destruct (r_up_tls r) eqn:Et; simpl; [|discriminate].
+    destruct (rewrite_request q pl (u_host t)) as [hh h] eqn:Er. intro H. inversion H; subst.
+    exists u, t. apply String.eqb_eq in E2. splits; auto.
+Qed.
+
+(** every field the upstream sees, name by name *)
+Theorem serve_headers fx q pl r tls m uri host hs body k :
+  serve fx q pl r = Forwarded tls m uri host hs body -> k <> "Host" ->
+  h_values k hs = expected_values false q pl m k.
+Proof.
+  intros H Hk. destruct (serve_forwarded _ _ _ _ _ _ _ _ _ _ H) as (u & t & _ & _ & _ & _ & _ & Hm & _ & _ & Hhs & _).
+  subst hs. rewrite h_values_sort by (apply nodup_on_the_wire; apply nodup_rewrite_request).
+  rewrite on_the_wire_values by exact Hk. unfold expected_values.
+  rewrite !rewrite_request_values by (exact Hk || discriminate). reflexivity.
+Qed.
+
+Lemma serve_host fx q pl r tls m uri host hs body :
+  serve fx q pl r = Forwarded tls m uri host hs body -> host = expected_host pl r.
+Proof.
+  intro H. destruct (serve_forwarded _ _ _ _ _ _ _ _ _ _ H) as (u & t & Hv & He & _ & _ & _ & _ & _ & Hh & _ & _).
+  subst host. unfold rewrite_request. cbv zeta. cbn [fst]. rewrite upstream_host. unfold expected_host.
+  assert (Ht : u_host t = b_host (r_backend r)).
+  { unfold execute in He.
+    assert (Hc : forall x, u_host (create_url (r_backend r) x) = b_host (r_backend r)).
+    { intro x. unfold create_url. destruct (b_rw (r_backend r)); reflexivity. }
+    destruct (r_setting r); try (inversion He; apply Hc).
+    destruct (has_enc_slash (fx_c08f2 fx) (u_rawpath u)); [discriminate|]. inversion He. apply Hc. }
+  rewrite Ht. destruct (pipeline_value (p_headers pl) "Host"); reflexivity.
+Qed.
+
+(** * the sentences about headers *)
+
+Lemma handed_over_pipeline q pl k v :
+  pipeline_value (p_headers pl) k = Some v -> forwarding_value q k = None ->
+  (k = "Cookie" -> p_cookies pl = []) ->
+  handed_over false q pl k = [v].
+Proof.
+  intros Hp Hf Hc. unfold handed_over. rewrite Hp, Hf.
+  destruct (String.eqb k "Cookie") eqn:E; [|reflexivity].
+  apply String.eqb_eq in E. rewrite (Hc E). reflexivity.
+Qed.
+
+(** "every header produced by the pipeline replaces any same-named header sent by the client" *)
+Theorem pipeline_header_wins fx q pl r tls m uri host hs body k v :
+  serve fx q pl r = Forwarded tls m uri host hs body ->
+  pipeline_value (p_headers pl) k = Some v -> v <> "" ->
+  k <> "Host" -> (k = "Cookie" -> p_cookies pl = []) ->
+  forwarding_value q k = None ->
+  h_values k hs = [v].
+Proof.
+  intros H Hp Hv Hk Hc Hf. rewrite (serve_headers _ _ _ _ _ _ _ _ _ _ k H Hk).
+  unfold expected_values. rewrite (handed_over_pipeline q pl k v Hp Hf Hc). simpl first_or_empty.
+  assert (He : is_empty v = false) by (destruct v; [congruence | reflexivity]).
+  destruct (String.eqb k "User-Agent"); [rewrite He; reflexivity|].
+  destruct (String.eqb k "Accept-Encoding") eqn:Ea; [|reflexivity].
+  apply String.eqb_eq in Ea. subst k. rewrite (handed_over_pipeline q pl _ v Hp Hf Hc). simpl first_or_empty.
+  rewrite He. reflexivity.
+Qed.
+
+(** the pipeline's Host header becomes the Host of the forwarded request *)
+Theorem pipeline_host_wins fx q pl r tls m uri host hs body v :
+  serve fx q pl r = Forwarded tls m uri host hs body ->
+  pipeline_value (p_headers pl) "Host" = Some v -> v <> "" -> host = v.
+Proof.
+  intros H Hp Hv. rewrite (serve_host _ _ _ _ _ _ _ _ _ _ H). unfold expected_host. rewrite Hp.
+  destruct v; [congruence | reflexivity].
+Qed.
+
+(** "a client cannot pass X-Forwarded-Method/-Uri/-Path through" *)
+Theorem no_forwarded_passthrough fx q pl r tls m uri host hs body k :
+  serve fx q pl r = Forwarded tls m uri host hs body ->
+  never_passed k = true -> pipeline_value (p_headers pl) k = None ->
+  h_values k hs = [].
+Proof.
+  intros H Hn Hp.
+  assert (Hk : k <> "Host") by (intro; subst k; discriminate).
+  rewrite (serve_headers _ _ _ _ _ _ _ _ _ _ k H Hk).
+  assert (Hf : forwarding_value q k = None).
+  { destruct (forwarding_value q k) eqn:E; [|reflexivity]. apply forwarding_value_name in E.
+    unfold never_passed, is_forwarding_name, mem_str in *. simpl in *.
+    destruct (String.eqb k "X-Forwarded-Method") eqn:E1; [apply String.eqb_eq in E1; subst k; discriminate|].
+    destruct (String.eqb k "X-Forwarded-Uri") eqn:E2; [apply String.eqb_eq in E2; subst k; discriminate|].
+    destruct (String.eqb k "X-Forwarded-Path") eqn:E3; [apply String.eqb_eq in E3; subst k; discriminate|].
+    discriminate. }
+  assert (Hho : handed_over false q pl k = []).
+  { unfold handed_over. rewrite Hp, Hf. unfold passed_on. rewrite Hn. simpl.
+    destruct (String.eqb k "Cookie") eqn:E; [|reflexivity]. apply String.eqb_eq in E. subst k. discriminate. }
+  unfold expected_values. rewrite Hho.
+  destruct (String.eqb k "User-Agent") eqn:E1; [apply String.eqb_eq in E1; subst k; discriminate|].
+  destruct (String.eqb k "Accept-Encoding") eqn:E2; [apply String.eqb_eq in E2; subst k; discriminate|].
+  reflexivity.
+Qed.
+
+(** "X-Forwarded-For or Forwarded is extended by the peer address": whichever of
+    the two carries this request's forwarding information ends with the peer *)
+Theorem forwarded_extended_by_peer fx q pl r tls m uri host hs body :
+  serve fx q pl r = Forwarded tls m uri host hs body ->
+  let hin := in_headers q in
+  if forwarding_active hin
+  then h_values "X-Forwarded-For" hs = [append_peer (h_get "X-Forwarded-For" hin) (q_peer q)]
+  else h_values "Forwarded" hs =
+       [append_peer (h_get "Forwarded" hin) ("for=" ++ q_peer q ++ ";host=" ++ q_host q ++ ";proto=http")].
+Proof.
+  intros H hin. destruct (forwarding_active hin) eqn:Ea.
+  - rewrite (serve_headers _ _ _ _ _ _ _ _ _ _ "X-Forwarded-For" H) by discriminate.
+    unfold expected_values, handed_over, forwarding_value. fold hin. rewrite Ea. reflexivity.
+  - rewrite (serve_headers _ _ _ _ _ _ _ _ _ _ "Forwarded" H) by discriminate.
+    unfold expected_values, handed_over, forwarding_value. fold hin. rewrite Ea. reflexivity.
+Qed.
+
+(** "leaving method and body untouched" *)
+Theorem method_body_untouched fx q pl r tls m uri host hs body :
+  serve fx q pl r = Forwarded tls m uri host hs body ->
+  body = q_body q /\ m = view_method q /\ (guard_F2 q = false -> m = q_method q).
+Proof.
+  intro H. destruct (serve_forwarded _ _ _ _ _ _ _ _ _ _ H) as (u & t & _ & _ & _ & _ & _ & Hm & _ & _ & _ & Hb).
+  splits; auto. intro Hg. subst m. unfold guard_F2 in Hg. apply negb_false_iff in Hg.
+  apply String.eqb_eq in Hg. exact Hg.
+Qed.
